@@ -31,7 +31,8 @@ def signals():
 
 
 def fresh_dicts():
-    return {1: dict(CYC[1]), 2: {'amp_threshes': (1, 2), 'fs': FS, 'f_range': FR}, 3: dict(AMP[1]), 4: {'filter_kwargs': {'n_cycles': 4}, 'boundary': 2}}
+    return {1: dict(CYC[1], min_n_cycles=2), 2: {'amp_threshes': (1, 2), 'fs': FS, 'f_range': FR}, 3: dict(AMP[1], min_n_cycles=2),
+            4: {'filter_kwargs': {'n_cycles': 4}, 'boundary': 2}, 5: dict(CYC[1], min_n_cycles=2), 6: dict(AMP[1], min_n_cycles=2)}
 
 
 def _norm(d):
@@ -41,7 +42,7 @@ def _norm(d):
 
 def snap_heap(D):
     out = []
-    for r in (1, 2, 3, 4):
+    for r in (1, 2, 3, 4, 5, 6):
         d = D[r]
         mnc = d.get('min_n_cycles', 0)
         if r == 4:
@@ -52,7 +53,7 @@ def snap_heap(D):
             expected = {'amp_threshes', 'fs', 'f_range', 'min_n_cycles'}
             junk = 0 if set(d) <= expected and d.get('amp_threshes') == (1, 2) and d.get('fs') == FS and tuple(d.get('f_range', ())) == FR else 1
         else:
-            fam = CYC if r == 1 else AMP
+            fam = CYC if r in (1, 5) else AMP
             body = {k: v for k, v in _norm(d).items() if k != 'min_n_cycles'}
             lvl = 1 if body == fam[1] else 2 if body == fam[2] else 9
             junk = 0
@@ -81,20 +82,23 @@ def replay(behaviour, shorthand=None):
     from bycycle.group import compute_features_2d, compute_features_3d
     import pandas as pd
     SIG = signals()
+    default_fe = sum(a['o'] + a['s'] for a in behaviour) % 2 == 1      # objects built with the library's default extrema options (None)
     D = fresh_dicts()                    # the user's dictionaries (identity persists through the session)
     if shorthand:
-        for r in (1, 3):
+        for r in (1, 3, 5, 6):
             D[r] = {k.replace('_threshold', ''): v for k, v in D[r].items()}
-    intent = {r: (_norm(d) if r in (1, 3) else copy.deepcopy(d)) for r, d in D.items()}   # what the user wrote, in full names (only Edit events touch it)
+    intent = {r: (_norm(d) if r in (1, 3, 5, 6) else copy.deepcopy(d)) for r, d in D.items()}   # what the user wrote, in full names (only Edit events touch it)
     not_expanded = False
     if shorthand:
         # the user first builds objects from the shorthand dictionaries: the constructor expands the names IN PLACE (documented); from then
         # on the same dictionaries are valid arguments of the functional API as well
         with warnings.catch_warnings():
             warnings.simplefilter('ignore')
-            Bycycle(burst_method='cycles', thresholds=D[1])
-            Bycycle(burst_method='amp', thresholds=D[3], burst_kwargs=D[2])
-        not_expanded = any(not k.endswith('_threshold') and k != 'min_n_cycles' for r in (1, 3) for k in D[r])
+            for r in (1, 5):
+                Bycycle(burst_method='cycles', thresholds=D[r])
+            for r in (3, 6):
+                Bycycle(burst_method='amp', thresholds=D[r], burst_kwargs=D[2])
+        not_expanded = any(not k.endswith('_threshold') and k != 'min_n_cycles' for r in (1, 3, 5, 6) for k in D[r])
     objs = {}
     with warnings.catch_warnings():
         warnings.simplefilter('ignore')
@@ -107,6 +111,7 @@ def replay(behaviour, shorthand=None):
         SHPN = {s: compute_shape_features(NOISY[s].copy(), FS, FR) for s in (1, 2)}        # small rhythm on a large slow wave: inverted flanks (negative volt_rise / volt_decay) occur
         NOB = {s: compute_features(SIG[s].copy(), FS, FR, threshold_kwargs={'amp_fraction_threshold': 1.0, 'min_n_cycles': 3}) for s in (1, 2)}   # no burst at all
     # persistent per-signal option lists for the group functions: the OUTER dictionaries and the list are the user's objects too
+    centre = {}
     OUTER = {m: [{'burst_method': m, 'threshold_kwargs': D[1 if m == 'cycles' else 3], 'burst_kwargs': D[2], 'center_extrema': 'peak'} for _ in range(2)] for m in ('cycles', 'amp')}
     SIGS2 = np.array([SIG[1], SIG[2]])
     SIGS3 = np.array([[SIG[1], SIG[2]], [SIG[2], SIG[1]]])
@@ -121,14 +126,15 @@ def replay(behaviour, shorthand=None):
                     if not_expanded:
                         not_expanded = False
                         raise RuntimeError('shorthand threshold names were not expanded by the constructor')
-                    objs[a['o']] = Bycycle(center_extrema='peak', burst_method=a['method'], burst_kwargs=D[2], thresholds=D[a['tk']], find_extrema_kwargs=D[4])
+                    objs[a['o']] = Bycycle(center_extrema='peak', burst_method=a['method'], burst_kwargs=D[2], thresholds=D[a['tk']], find_extrema_kwargs=None if default_fe else D[4])
+                    centre[a['o']] = 'peak'
                 elif a['a'] == 'Fit':
                     b = objs[a['o']]
                     b.fit(SIG[a['s']], FS, FR)
                     ev['df_fp'] = pt.table_fp(b.df_features)
-                    ev['fresh_fp'] = pt.table_fp(compute_features(SIG[a['s']].copy(), FS, FR, center_extrema='peak', burst_method=a['method'],
+                    ev['fresh_fp'] = pt.table_fp(compute_features(SIG[a['s']].copy(), FS, FR, center_extrema=centre[a['o']], burst_method=a['method'],
                                                                   burst_kwargs=copy.deepcopy(intent[2]), threshold_kwargs=copy.deepcopy(intent[a['tk']]),
-                                                                  find_extrema_kwargs=copy.deepcopy(intent[4])))
+                                                                  find_extrema_kwargs=None if default_fe else copy.deepcopy(intent[4])))
                 elif a['a'] == 'Recompute':
                     b = objs[a['o']]
                     before = b.df_features.copy()
@@ -143,6 +149,11 @@ def replay(behaviour, shorthand=None):
                     b.load(df, SIG[a['s']], FS, FR)
                     ev['df_fp'] = pt.table_fp(b.df_features)
                     ev['fresh_fp'] = pt.table_fp(LOAD[a['s']])
+                elif a['a'] == 'SetCentre':
+                    objs[a['o']].center_extrema = a['method']
+                    centre[a['o']] = a['method']
+                elif a['a'] == 'Rebind':
+                    objs[a['o']].thresholds = D[a['tk']]
                 elif a['a'] == 'Edit':
                     r, field, val = a['o'], a['method'], a['v']
                     for d in (D[r], intent[r]):
@@ -153,7 +164,7 @@ def replay(behaviour, shorthand=None):
                                 d['min_n_cycles'] = val
                         else:
                             short = any(not k.endswith('_threshold') and k != 'min_n_cycles' for k in d) and d is not intent[r]
-                            new = copy.deepcopy((CYC if r == 1 else AMP)[val])
+                            new = copy.deepcopy((CYC if r in (1, 5) else AMP)[val])
                             d.update({k.replace('_threshold', ''): v for k, v in new.items()} if short else new)
                 elif a['a'] == 'GetAttr':
                     b = objs[a['o']]
@@ -187,6 +198,10 @@ def replay(behaviour, shorthand=None):
                         res = compute_features(sig, FS, FR, burst_method=m, burst_kwargs=D[2], threshold_kwargs=D[tk], find_extrema_kwargs=D[4])
                     elif f == 'compute_shape_features':
                         res = compute_shape_features(sig, FS, FR, find_extrema_kwargs=D[4])
+                    elif f == 'compute_shape_features_n_cycles_5':
+                        res = compute_shape_features(sig, FS, FR, n_cycles=5)                    # library defaults for the extrema options
+                    elif f == 'compute_features_default_options':
+                        res = compute_features(sig, FS, FR, burst_method=m, burst_kwargs=D[2], threshold_kwargs=D[tk])
                     elif f in ('compute_burst_features', 'compute_burst_features_inverted_flanks'):
                         res = compute_burst_features(tab, sig, burst_method=m, burst_kwargs=D[2])
                     elif f == 'limit_df_keeping_all_cycles':
